@@ -1368,6 +1368,9 @@ def enumerate_faults(sim1, seed, nsteps=24):
             ev(n, "IOERR", errno="ENOSPC")
             ev(n, "IOERR", errno="EROFS", persist=True)
             ev(n, "INTERRUPT")
+            # fault sequences: an interrupt, then an I/O error / a second interrupt at whatever is written next
+            ev(n, "INTERRUPT", then={"kind": "IOERR", "errno": "EIO", "cut": 0.5})
+            ev(n, "INTERRUPT", then={"kind": "INTERRUPT"})
             ev(n, "ALLOC")
             ev(n, "KILL")
         elif k in ("close_w", "flush"):
